@@ -93,6 +93,23 @@ fn main() {
             .collect();
         sink.merge(struct_sweep(&run, &[&SCT_LIST], &lists, 0, &sfx, 16, &extra));
     }
+    // (hash, signature) read as a 16-bit number equal to the length of what follows: signature sizes a-4, a-2, a
+    {
+        let mut co: Vec<W> = Vec::new();
+        for a in (0..=0x0909u32).filter(|a| a & 0xff <= 9 || thorough) {
+            for d in [4i64, 2, 0] {
+                let n = a as i64 - d;
+                if (0..=20000).contains(&n) {
+                    let mut w = W::new();
+                    cat::sct_entry(&mut w, 0, 5, 0, (a >> 8) as u8, a as u8, n as usize);
+                    co.push(w);
+                }
+            }
+        }
+        sink.merge(struct_sweep(&run, &[&SCT], &co, 0, &sfx, 16, &extra));
+        let lists: Vec<W> = co.iter().map(|e| { let mut w = W::new(); w.block(2, "list", |w| { w.append(e); cat::sct_entry(w, 0, 6, 0, 4, 3, 2); }); w }).collect();
+        sink.merge(struct_sweep(&run, &[&SCT_LIST], &lists, 0, &sfx, 16, &extra));
+    }
     // v1 entries that are at the same time well-formed CT v2 TransItems (solved against the RFC 9162 layout), single and in lists
     {
         let poly = cat::sct_v2_polyglots();
